@@ -53,6 +53,17 @@ CHECKS["C05"] = dict(
          "Lie_beta gamma = 2 D_(i beta_j) must converge to zero.",
     design="4/C05")
 
+CHECKS["C06"] = dict(
+    technique="Hypothesis-generated exact solutions (any gauge, Lambda, "
+              "matter as T or FLRW fluid variables, vacuum flag) -> "
+              "two-resolution convergence-order oracle: constraints -> 0, "
+              "dt-quantities -> exact t-derivative of the closed-form fields",
+    text="Hamiltonian/momentum constraints (all offered forms), the "
+         "matter-from-constraint projections and the six dt-quantities are "
+         "evaluated on exact solutions at two resolutions; normalised "
+         "constraints must equal constraint/scale exactly.",
+    design="4/C06")
+
 NOT_YET = "check not built yet in this session (see DESIGN.md section 4)"
 
 
